@@ -66,29 +66,31 @@ type deferRec struct {
 }
 
 type frame struct {
-	vc       *VC
-	fn       *ssa.Function
-	id       string
-	namePfx  string // obligation name prefix
-	vals     map[ssa.Value]TV
-	lvs      map[ssa.Value]*LV
-	depth    int
-	contract *FuncC
-	top      bool
-	loops    map[*ssa.BasicBlock]*loopInfo
-	out      map[*ssa.BasicBlock]*bstate
-	edge     map[[2]int]string // (block index, succ slot) -> condition
-	rets     []retInfo
-	locals   []*localAlloc
-	entry    *bstate
-	params   map[string]TV
-	defers   []*deferRec
-	srcText  map[token.Pos]string
-	callOrd  map[string]int
-	errCalls []errCall // for noswallow
-	headVars map[*ssa.BasicBlock]map[string]TV
-	variant0 map[*ssa.BasicBlock]string
-	caller   *frame
+	vc          *VC
+	fn          *ssa.Function
+	id          string
+	namePfx     string // obligation name prefix
+	vals        map[ssa.Value]TV
+	lvs         map[ssa.Value]*LV
+	depth       int
+	contract    *FuncC
+	top         bool
+	loops       map[*ssa.BasicBlock]*loopInfo
+	out         map[*ssa.BasicBlock]*bstate
+	edge        map[[2]int]string // (block index, succ slot) -> condition
+	rets        []retInfo
+	locals      []*localAlloc
+	entry       *bstate
+	params      map[string]TV
+	defers      []*deferRec
+	srcText     map[token.Pos]string
+	callOrd     map[string]int
+	errCalls    []errCall // for noswallow
+	headVars    map[*ssa.BasicBlock]map[string]TV
+	variant0    map[*ssa.BasicBlock]string
+	caller      *frame
+	boundDepth  int
+	noInvAssume bool // >0 while translating under a binder (quantifier, spec definition)
 }
 
 type errCall struct {
@@ -416,6 +418,46 @@ func (f *frame) wfFacts(t string, ty types.Type, alloc string, depth int) []stri
 			for i := 0; i < u.NumFields(); i++ {
 				out = append(out, f.wfFacts("("+si.fields[i]+" "+t+")", u.Field(i).Type(), alloc, depth+1)...)
 			}
+		}
+		for _, ti := range f.eng().typeInvs {
+			if !ti.ptr && types.Identical(ti.ty, ty) {
+				// inside the declaring package a loaded value may be under
+				// construction: the invariant is only assumed for values that
+				// arrive from outside (parameters, call results)
+				if f.noInvAssume && f.pkgTypes() == ti.pkg {
+					continue
+				}
+				env := &Env{f: f, vars: map[string]TV{"self": {T: t, S: f.sortOf(ty), Ty: ty}}, st: nil, pkg: ti.pkg}
+				out = append(out, f.transBool(ti.c.Expr, env))
+				if ti.c.Assumed {
+					f.vc.note("assumed type invariant: " + ti.c.Type + ": " + ti.c.Text)
+				}
+			}
+		}
+	}
+	return out
+}
+
+// ptrInvFacts: (assumed or proved) invariants of objects reached through a pointer.
+func (f *frame) ptrInvs(ref TV, st *bstate, wantAssumed bool) []string {
+	var out []string
+	pt, ok := ref.Ty.Underlying().(*types.Pointer)
+	if !ok {
+		return nil
+	}
+	for _, ti := range f.eng().typeInvs {
+		if types.Identical(ti.ty, pt.Elem()) && (ti.ptr || true) {
+			if ti.c.Assumed != wantAssumed && wantAssumed {
+				continue
+			}
+			var self TV
+			if ti.ptr {
+				self = ref
+			} else {
+				self = TV{T: f.loadStruct(st, pt.Elem(), ref.T), S: f.sortOf(pt.Elem()), Ty: pt.Elem()}
+			}
+			env := &Env{f: f, vars: map[string]TV{"self": self}, st: st, pkg: ti.pkg}
+			out = append(out, f.transBool(ti.c.Expr, env))
 		}
 	}
 	return out
